@@ -205,6 +205,84 @@ def coq_build(targets, timeout=3000, jobs=16):
         return p.returncode, p.stdout, time.time() - t0
 
 
+def coq_deps(f):
+    """Direct dependencies (our own .v files) of a .v file."""
+    return [d for d in coq_closure_direct(f)]
+
+
+def coq_closure_direct(f):
+    src = strip_coq_comments(open(f).read())
+    mods = set()
+    for m in re.finditer(r"From\s+Verif\s+Require\s+(?:Import\s+|Export\s+)?((?:[A-Za-z_][\w']*(?:\.[A-Za-z_][\w']*)*\s*)+)\.(?=\s|$)", src):
+        for name in m.group(1).split():
+            mods.add(name)
+    for m in re.finditer(r"Require\s+(?:Import\s+|Export\s+)?((?:Verif\.[\w'.]+\s+)*Verif\.[\w']+(?:\.[\w']+)*)\s*\.(?=\s|$)", src):
+        for name in m.group(1).split():
+            mods.add(name[len("Verif."):])
+    out = []
+    for name in sorted(mods):
+        p = os.path.join(COQ, "theories", *name.split(".")) + ".v"
+        if os.path.exists(p):
+            out.append(p)
+    return out
+
+
+def coq_build_closure(roots, timeout=3000):
+    """Compile (full .vo) the dependency closure of the given .v files with coqc, in dependency order,
+    recompiling what is out of date.  Only the top-level directories involved are locked, so checks of
+    unrelated properties do not wait for each other (no shared make / coqdep state)."""
+    order = []
+    state = {}
+
+    def visit(f):
+        if state.get(f) == 2:
+            return
+        if state.get(f) == 1:
+            raise CheckFailure("circular dependency at " + f)
+        state[f] = 1
+        for d in coq_closure_direct(f):
+            visit(d)
+        state[f] = 2
+        order.append(f)
+
+    for r in roots:
+        if os.path.exists(r):
+            visit(r)
+    def area(f):
+        parts = os.path.relpath(f, os.path.join(COQ, "theories")).split(os.sep)
+        if parts[0] in ("Properties", "Extract"):      # one file per property: lock per file
+            return parts[0] + "-" + parts[-1]
+        return parts[0]
+    areas = sorted({area(f) for f in order if f.startswith(os.path.join(COQ, "theories"))})
+    locks = [Lock("coq-" + a) for a in areas]
+    t0 = time.time()
+    log_out = []
+    for l in locks:
+        l.__enter__()
+    try:
+        rebuilt = set()
+        for f in order:
+            if not f.startswith(os.path.join(COQ, "theories")):
+                continue
+            vo = f[:-2] + ".vo"
+            deps = coq_closure_direct(f)
+            stale = (not os.path.exists(vo)) or os.path.getmtime(vo) < os.path.getmtime(f) or any(
+                d in rebuilt or os.path.getmtime(d[:-2] + ".vo") > os.path.getmtime(vo) for d in deps)
+            if not stale:
+                continue
+            p = run(["timeout", str(timeout), "coqc", "-Q", "theories", "Verif",
+                     "-w", "-notation-overridden,-deprecated-hint-without-locality,-deprecated-instance-without-locality",
+                     os.path.relpath(f, COQ)], cwd=COQ, check=False)
+            log_out.append("COQC " + os.path.relpath(f, COQ))
+            if p.returncode != 0:
+                return p.returncode, "\n".join(log_out) + "\n" + p.stdout, time.time() - t0
+            rebuilt.add(f)
+    finally:
+        for l in reversed(locks):
+            l.__exit__()
+    return 0, "\n".join(log_out), time.time() - t0
+
+
 def properties_file(pid):
     return os.path.join("theories", "Properties", pid + ".v")
 
@@ -250,14 +328,16 @@ def prove(pid, extra_targets=(), timeout=3000):
         raise e
     vfile = properties_file(pid)
     target = vfile[:-2] + ".vo"
-    rc, out, secs = coq_build([target] + list(extra_targets), timeout=timeout)
+    rc, out, secs = coq_build_closure([os.path.join(COQ, vfile)] +
+                                      [os.path.join(COQ, t[:-1]) for t in extra_targets if t.endswith(".vo")],
+                                      timeout=timeout)
     info["make_s"] = round(secs, 1)
     if rc != 0:
         e = CheckFailure("coq build failed for %s:\n%s" % (pid, out[-6000:]))
         e.info = info
         raise e
     # Re-run coqc on the property file alone (cheap: contains only `exact`s).
-    with Lock("coq"):
+    with Lock("coq-Properties-" + pid):
         p = run(["timeout", "600", "coqc", "-Q", "theories", "Verif", vfile], cwd=COQ, check=False)
     if p.returncode != 0:
         e = CheckFailure("coqc %s failed:\n%s" % (vfile, p.stdout[-4000:]))
@@ -285,7 +365,7 @@ def prove(pid, extra_targets=(), timeout=3000):
         e.info = info
         raise e
     info["discharged"] = len(thms)
-    info["checker_cmd"] = "make -C coq %s && coqc -Q theories Verif %s (Print Assumptions parsed)" % (target, vfile)
+    info["checker_cmd"] = "coqc (full .vo, dependency closure of %s in dependency order) && coqc -Q theories Verif %s (Print Assumptions parsed)" % (vfile, vfile)
     return info
 
 
